@@ -38,7 +38,12 @@ ProbeStrs == << "a eq 1",
                 "nullable eq null and x/all(v: v eq true)",
                 "geo.distance(a, b) lt 5 and trim(s) eq 'a'",
                 "distance(a, b) lt 5",
-                "geo.trim(s) eq 'a'" >>
+                "geo.trim(s) eq 'a'",
+                \* a geography literal, terminated and not: a lexer that enters a sub-state for the body must leave it
+                "geo.length(r) gt geography'LINESTRING(1 2, 3 4)",
+                "geo.intersects(r, geography'POINT(1 2)')",
+                \* an in-list with repeated items (order and arity are part of the result)
+                "status in ('open', 'closed', 'on hold', 'open') or id in (3, 1, 2, 3, 1)" >>
 NProbes == Len(ProbeStrs)
 ProbeCps == [i \in 1..NProbes |-> StrCps(ProbeStrs[i])]
 Outcome == [i \in 1..NProbes |-> ParseText(ProbeCps[i])]
